@@ -137,7 +137,7 @@ impl Property for Prop {
         "C07"
     }
     fn rule(&self) -> &'static str {
-        "merges: for each shape (fragments per PDU: 2x2, 2x3, 3x3, 2x4, 2x5, 3x4, 4x4, 5x5, 3x3x3, 2x3x4, 2x2x2x2, 2x2x3; thorough adds 4x4x4, 3x3x3x3, 5x5x2x2, 4x5x5, 2x2x2x3) trains are built by the real encapsulator on fragment ids distinct modulo the slot count (each shape on memories of 4, 3, 6 and 5 slots) and EVERY order-preserving merge is decapsulated on a fresh receiver (key = shape x memory size x 8 parts of the merge index space); the result stream restricted to each train must equal that train decapsulated alone, with exactly one delivery per PDU at its own end fragment. strays: for every merge of the small shapes one stray packet is inserted at EVERY position from {intermediate / end of an unknown id in an empty slot, intermediate / end of an id aliasing an open slot (id +/- slots), complete packet (accepted), complete packet with no storage left (rejected), end fragment with a bad CRC for a finished id}. restart: a new first fragment on the same id restarts only that id. sampled: random merges of 4x5 with an aliasing stray on memories of 4..7 and 256 slots (ids 0, 255, 254, 1 there). reuse-strays: all merges of 2x2, 2x3, 3x3, 2x2x2 where every PDU carries the same label and the re-use-enabled encapsulator is driven in the merge order (substituted first fragments), with a stray intermediate / end packet of an unknown or aliasing id at every position; reference = the same stream without the stray; additionally an extra PDU whose damaged end fragment (length mismatch) is rejected at every position. scarce: 4 trains of 3 fragments with only 1..3 storage buffers: every PDU whose first fragment was accepted is delivered exactly once. (All receivers are built with max_pdu_frag = length of the longest train.) Evaluations = decap calls; non-trivial = a merge in which at least two trains were really interleaved; fingerprint = hash(shape, merge order, stray)."
+        "merges: for each shape (fragments per PDU: 2x2, 2x3, 3x3, 2x4, 2x5, 3x4, 4x4, 5x5, 3x3x3, 2x3x4, 2x2x2x2, 2x2x3; thorough adds 4x4x4, 3x3x3x3, 5x5x2x2, 4x5x5, 2x2x2x3) trains are built by the real encapsulator on fragment ids distinct modulo the slot count (each shape on memories of 4, 3, 6 and 5 slots) and EVERY order-preserving merge is decapsulated on a fresh receiver (key = shape x memory size x 8 parts of the merge index space); the result stream restricted to each train must equal that train decapsulated alone, with exactly one delivery per PDU at its own end fragment. strays: for every merge of the small shapes one stray packet is inserted at EVERY position from {intermediate / end of an unknown id in an empty slot, intermediate / end of an id aliasing an open slot (id +/- slots), complete packet (accepted), complete packet too large for the storage (rejected), padding, a first fragment of an unknown or aliasing id that the receiver refuses (unknown mandatory extension, null label, total length too small: a refused first fragment does not claim the slot), and the non-packet event 'the application provisions storage until the memory reports it is full'}; the packet strays whose rejection must consume exactly the packet are also presented FRAMED (stray and the following train packet in one buffer, walked by consumed lengths). restart: a new first fragment on the same id restarts only that id. sampled: random merges of 4x5 with an aliasing stray on memories of 4..7 and 256 slots (ids 0, 255, 254, 1 there). reuse-strays: all merges of 2x2, 2x3, 3x3, 2x2x2 where every PDU carries the same label and the re-use-enabled encapsulator is driven in the merge order (substituted first fragments), with a stray intermediate / end packet of an unknown or aliasing id at every position; reference = the same stream without the stray; additionally an extra PDU whose damaged end fragment (length mismatch) is rejected at every position. scarce: 4 trains of 3 fragments with only 1..3 storage buffers: every PDU whose first fragment was accepted is delivered exactly once. (All receivers are built with max_pdu_frag = length of the longest train.) Evaluations = decap calls; non-trivial = a merge in which at least two trains were really interleaved; fingerprint = hash(shape, merge order, stray)."
     }
     fn gens(&self, cx: &Cx) -> Vec<Gen> {
         let s = shapes(cx).len() as u64;
@@ -166,7 +166,9 @@ impl Property for Prop {
             let mut d = plain_dec(slots, 64, (slots + 2).min(10), 64, MandTable::none());
             t.pkts.iter().map(|p| outcome(&dec_guard(&mut d, p))).collect()
         };
-        let run_merge = |trains: &[TrainT], refs: &[Vec<String>], order: &[usize], stray: Option<(usize, &Vec<u8>, &str)>, rep: &mut Report| -> bool {
+        // stray = (position, packet, name, framed): framed = the stray and the train packet that follows it are given to
+        // decap in ONE buffer which is walked by consumed lengths, as a frame would be
+        let run_merge = |trains: &[TrainT], refs: &[Vec<String>], order: &[usize], stray: Option<(usize, &Vec<u8>, &str, bool)>, rep: &mut Report| -> bool {
             // the constructor's max_pdu_frag argument is set to the length of the longest train: rejected stray
             // packets must not count against a PDU in progress
             let maxfrag = trains.iter().map(|t| t.pkts.len()).max().unwrap_or(0);
@@ -175,18 +177,31 @@ impl Property for Prop {
             let mut delivered = vec![0usize; trains.len()];
             let mut pos = 0usize;
             let total = order.len();
+            let mut prefix: Option<&Vec<u8>> = None;
             for step in 0..=total {
-                if let Some((at, pkt, sname)) = stray {
+                if let Some((at, pkt, sname, framed)) = stray {
                     if at == step {
-                        rep.eval();
-                        let r = dec_guard(&mut d, pkt);
-                        if let Ok(Ok((DecapStatus::CompletedPkt(b, _), _))) = r {
-                            // the stray complete packet is consumed by the application: give storage back unless
-                            // the scenario is "no storage"
-                            let _ = d.provision_storage(b);
-                        } else if r.is_err() {
-                            rep.violation("C07", format!("stray-panics:{}", sname), || format!("stray packet {} ({}) panicked the receiver: {}", hex_short(pkt, 32), sname, outcome(&r)), &replay);
-                            return false;
+                        if sname == "provision-until-full" {
+                            // the application tops the free list up until the memory reports it is full
+                            for _ in 0..300 {
+                                rep.eval();
+                                if d.provision_storage(vec![0u8; 64].into_boxed_slice()).is_err() {
+                                    break;
+                                }
+                            }
+                        } else if framed && step < total {
+                            prefix = Some(pkt);
+                        } else {
+                            rep.eval();
+                            let r = dec_guard(&mut d, pkt);
+                            if let Ok(Ok((DecapStatus::CompletedPkt(b, _), _))) = r {
+                                // the stray complete packet is consumed by the application: give storage back unless
+                                // the scenario is "no storage"
+                                let _ = d.provision_storage(b);
+                            } else if r.is_err() {
+                                rep.violation("C07", format!("stray-panics:{}", sname), || format!("stray packet {} ({}) panicked the receiver: {}", hex_short(pkt, 32), sname, outcome(&r)), &replay);
+                                return false;
+                            }
                         }
                     }
                 }
@@ -198,10 +213,33 @@ impl Property for Prop {
                 let k = next[t];
                 next[t] += 1;
                 rep.eval();
-                let r = dec_guard(&mut d, &trains[t].pkts[k]);
+                let r = match prefix.take() {
+                    None => dec_guard(&mut d, &trains[t].pkts[k]),
+                    Some(pre) => {
+                        let sname = stray.map(|s| s.2).unwrap_or("none");
+                        let mut frame = pre.clone();
+                        frame.extend_from_slice(&trains[t].pkts[k]);
+                        let r1 = dec_guard(&mut d, &frame);
+                        let n1 = match &r1 {
+                            Ok(Ok((_, n))) => *n,
+                            Ok(Err((_, n))) => *n,
+                            Err(_) => {
+                                rep.violation("C07", format!("stray-panics:{}", sname), || format!("stray packet {} ({}) panicked the receiver: {}", hex_short(pre, 32), sname, outcome(&r1)), &replay);
+                                return false;
+                            }
+                        };
+                        if let Ok(Ok((DecapStatus::CompletedPkt(b, _), _))) = r1 {
+                            let _ = d.provision_storage(b);
+                        }
+                        rep.eval();
+                        rep.count("c07.framed-strays");
+                        // the frame walker continues where the stray's consumed length points
+                        dec_guard(&mut d, &frame[n1.min(frame.len())..])
+                    }
+                };
                 let o = outcome(&r);
                 if o != refs[t][k] {
-                    let sn = stray.map(|s| s.2).unwrap_or("none");
+                    let sn = stray.map(|s| if s.3 { format!("{}+framed", s.2) } else { s.2.to_string() }).unwrap_or("none".into());
                     rep.violation("C07", format!("interleaving-changes-outcome:stray-{}:{}", sn, if k + 1 == trains[t].pkts.len() { "end" } else if k == 0 { "first" } else { "intermediate" }), || format!("trains {:?} (ids {:?}), merge order {:?}, stray {:?}: packet {} of train {} -> {} but alone -> {}", trains.iter().map(|t| t.pkts.len()).collect::<Vec<_>>(), trains.iter().map(|t| t.id).collect::<Vec<_>>(), order, stray.map(|s| (s.0, s.2, hex_short(s.1, 24))), k, t, o, refs[t][k]), &replay);
                     return false;
                 }
@@ -253,17 +291,27 @@ impl Property for Prop {
                     Some(a) => a,
                     None => return,
                 };
-                let mut strays: Vec<(Vec<u8>, &str)> = Vec::new();
+                // (packet, name, may be framed): framing only for the rejections that must consume exactly the packet
+                let mut strays: Vec<(Vec<u8>, &str, bool)> = Vec::new();
                 if gen == "strays" {
+                    let unknown_ext = |id: u8| crate::wire::serialise(&crate::wire::Fields { kind: crate::wire::Kind::First, lt: 1, frag_id: id, total_len: 60, ptype: 0x0800, label: &[9, 9, 9], exts: &[crate::wire::ExtEntry { id: 0x0042, data: vec![] }], final_ext: true, payload: b"first", crc: 0 });
                     if let Some(e) = empty_slot_id {
-                        strays.push((mk_inter(e, b"stray"), "intermediate-unknown-id"));
-                        strays.push((mk_end(e, b"stray", 0x0BAD_C0DE), "end-unknown-id"));
+                        strays.push((mk_inter(e, b"stray"), "intermediate-unknown-id", true));
+                        strays.push((mk_end(e, b"stray", 0x0BAD_C0DE), "end-unknown-id", true));
+                        strays.push((unknown_ext(e), "first-unknown-id-refused-unknown-mandatory", true));
                     }
-                    strays.push((mk_inter(alias, b"alias"), "intermediate-aliasing-id"));
-                    strays.push((mk_end(alias, b"alias", 0x0BAD_C0DE), "end-aliasing-id"));
-                    strays.push((mk_complete(1, &[9, 9, 9], 0x86DD, b"complete"), "complete-accepted"));
-                    strays.push((mk_complete(1, &[9, 9, 9], 0x86DD, &[0x55u8; 200]), "complete-rejected-oversize"));
-                    strays.push((vec![0u8; 4], "padding"));
+                    strays.push((mk_inter(alias, b"alias"), "intermediate-aliasing-id", true));
+                    strays.push((mk_end(alias, b"alias", 0x0BAD_C0DE), "end-aliasing-id", true));
+                    strays.push((mk_complete(1, &[9, 9, 9], 0x86DD, b"complete"), "complete-accepted", true));
+                    strays.push((mk_complete(1, &[9, 9, 9], 0x86DD, &[0x55u8; 200]), "complete-rejected-oversize", true));
+                    strays.push((vec![0u8; 4], "padding", false));
+                    // first fragments of an id that shares a slot with an open reassembly and that the receiver
+                    // refuses: a refused first fragment does not claim the slot
+                    strays.push((crate::hostile::mk_first(0, &[0, 0, 0, 0, 0, 0], alias, 60, 0x0800, b"first"), "first-aliasing-id-refused-null-label", false));
+                    strays.push((unknown_ext(alias), "first-aliasing-id-refused-unknown-mandatory", true));
+                    strays.push((crate::hostile::mk_first(1, &[9, 9, 9], alias, 3, 0x0800, b"firstfirst"), "first-aliasing-id-refused-short-total", false));
+                    // not a packet: the application tops the free list up until the memory says it is full
+                    strays.push((vec![], "provision-until-full", false));
                 }
                 let mut counts = shape.clone();
                 let mut cur = Vec::new();
@@ -279,12 +327,17 @@ impl Property for Prop {
                             rep.nontrivial(mix(fnv(format!("{:?}", shape).as_bytes()), fnv(&order.iter().map(|x| *x as u8).collect::<Vec<_>>())));
                         }
                     } else {
-                        for (si, (pkt, name)) in strays.iter().enumerate() {
+                        for (si, (pkt, name, frameable)) in strays.iter().enumerate() {
                             for at in 0..=total {
-                                if run_merge(&trains, &refs, order, Some((at, pkt, name)), rep) {
-                                    rep.count_n("c07.stray-runs", 1);
-                                    if mixed {
-                                        rep.nontrivial(mix(mix(fnv(format!("{:?}", shape).as_bytes()), fnv(&order.iter().map(|x| *x as u8).collect::<Vec<_>>())), (si * 64 + at) as u64));
+                                for framed in [false, true] {
+                                    if framed && (!*frameable || at == total) {
+                                        continue;
+                                    }
+                                    if run_merge(&trains, &refs, order, Some((at, pkt, name, framed)), rep) {
+                                        rep.count_n("c07.stray-runs", 1);
+                                        if mixed {
+                                            rep.nontrivial(mix(mix(fnv(format!("{:?}", shape).as_bytes()), fnv(&order.iter().map(|x| *x as u8).collect::<Vec<_>>())), (si * 128 + at * 2 + framed as usize) as u64));
+                                        }
                                     }
                                 }
                             }
@@ -633,7 +686,7 @@ impl Property for Prop {
                         None => return,
                     };
                     stray_pkt = if rng.chance(1, 2) { mk_inter(alias, b"zz") } else { mk_end(alias, b"zz", rng.next() as u32) };
-                    Some((rng.below(21), &stray_pkt, "sampled-aliasing"))
+                    Some((rng.below(21), &stray_pkt, "sampled-aliasing", rng.chance(1, 2)))
                 } else {
                     None
                 };
